@@ -807,12 +807,8 @@ impl DcpsDomainParticipant {
                     .iter()
                     .filter(|x| x.dds_subscription_data.topic_name.value == writer_topic_name)
                 {
-                    if data_writer
-                        .matched_subscription_list
-                        .contains(&discovered_reader_data.dds_subscription_data)
-                    {
-                        continue;
-                    }
+                    // Also the already matched readers are evaluated again since the compatibility
+                    // depends on the QoS of the local writer which might have changed
 
                     let default_unicast_locator_list = if let Some(p) = self
                         .domain_participant
@@ -1045,8 +1041,17 @@ impl DcpsDomainParticipant {
                                         },
                                     ) {
                                         Some(x) => {
-                                            *x =
-                                                discovered_reader_data.dds_subscription_data.clone()
+                                            // Update of an already matched reader: this is not a new match
+                                            // but the changed data of the matched reader is signalled
+                                            if *x != discovered_reader_data.dds_subscription_data {
+                                                *x = discovered_reader_data
+                                                    .dds_subscription_data
+                                                    .clone();
+                                                data_writer.status_condition.add_communication_state(
+                                                    StatusKind::PublicationMatched,
+                                                );
+                                            }
+                                            continue;
                                         }
                                         None => data_writer.matched_subscription_list.push(
                                             discovered_reader_data.dds_subscription_data.clone(),
@@ -1174,6 +1179,26 @@ impl DcpsDomainParticipant {
                                         .status_condition
                                         .add_communication_state(StatusKind::PublicationMatched);
                                 } else {
+                                    // A matched reader whose QoS became incompatible is not matched anymore
+                                    let reader_key =
+                                        discovered_reader_data.dds_subscription_data.key().value;
+                                    if data_writer
+                                        .matched_subscription_list
+                                        .iter()
+                                        .any(|x| x.key().value == reader_key)
+                                    {
+                                        data_writer.remove_matched_subscription(
+                                            &InstanceHandle::new(reader_key),
+                                        );
+                                        data_writer
+                                            .writer
+                                            .transport_writer
+                                            .delete_matched_reader(Guid::from(reader_key));
+                                        data_writer.notify_acknowledged_waiters();
+                                        data_writer.status_condition.add_communication_state(
+                                            StatusKind::PublicationMatched,
+                                        );
+                                    }
                                     data_writer
                                         .incompatible_subscriptions
                                         .add_incompatible_subscription(
@@ -1360,12 +1385,8 @@ impl DcpsDomainParticipant {
                     .iter()
                     .filter(|x| x.dds_publication_data.topic_name() == reader_topic_name)
                 {
-                    if data_reader
-                        .matched_publication_list
-                        .contains(&discovered_writer_data.dds_publication_data)
-                    {
-                        continue;
-                    }
+                    // Also the already matched writers are evaluated again since the compatibility
+                    // depends on the QoS of the local reader which might have changed
 
                     let default_unicast_locator_list = if let Some(p) = self
                         .domain_participant
@@ -1601,6 +1622,21 @@ impl DcpsDomainParticipant {
                                         &subscriber_qos,
                                     );
                                 if incompatible_qos_policy_list.is_empty() {
+                                    if let Some(x) =
+                                        data_reader.matched_publication_list.iter_mut().find(|x| {
+                                            x.key() == discovered_writer_data.dds_publication_data.key()
+                                        })
+                                    {
+                                        // Update of an already matched writer: this is not a new match
+                                        // but the changed data of the matched writer is signalled
+                                        if *x != discovered_writer_data.dds_publication_data {
+                                            *x = discovered_writer_data.dds_publication_data.clone();
+                                            data_reader.status_condition.add_communication_state(
+                                                StatusKind::SubscriptionMatched,
+                                            );
+                                        }
+                                        continue;
+                                    }
                                     data_reader.add_matched_publication(
                                         discovered_writer_data.dds_publication_data.clone(),
                                     );
@@ -1708,6 +1744,22 @@ impl DcpsDomainParticipant {
                                         .status_condition
                                         .add_communication_state(StatusKind::SubscriptionMatched);
                                 } else {
+                                    // A matched writer whose QoS became incompatible is not matched anymore
+                                    let writer_key =
+                                        discovered_writer_data.dds_publication_data.key().value;
+                                    if data_reader
+                                        .matched_publication_list
+                                        .iter()
+                                        .any(|x| x.key().value == writer_key)
+                                    {
+                                        data_reader.remove_matched_publication(&InstanceHandle::new(
+                                            writer_key,
+                                        ));
+                                        data_reader
+                                            .reader
+                                            .transport_reader
+                                            .delete_matched_writer(Guid::from(writer_key));
+                                    }
                                     data_reader.add_requested_incompatible_qos(
                                         InstanceHandle::new(
                                             discovered_writer_data.dds_publication_data.key().value,
